@@ -248,19 +248,19 @@ pub fn char_high_local(e: &E) -> bool {
 }
 
 #[derive(Clone, Copy, Default, Debug, PartialEq, Eq)]
-pub struct Flags { pub u: bool, pub c: bool, pub r: bool, pub f: bool, pub w: bool }
+pub struct Flags { pub u: bool, pub c: bool, pub r: bool, pub f: bool, pub w: bool, pub p: bool, pub o: bool }
 impl Flags {
-    pub fn or(self, o: Flags) -> Flags { Flags { u: self.u || o.u, c: self.c || o.c, r: self.r || o.r, f: self.f || o.f, w: self.w || o.w } }
-    pub fn any(self) -> bool { self.u || self.c || self.r || self.f || self.w }
+    pub fn or(self, o: Flags) -> Flags { Flags { u: self.u || o.u, c: self.c || o.c, r: self.r || o.r, f: self.f || o.f, w: self.w || o.w, p: self.p || o.p, o: self.o || o.o } }
+    pub fn any(self) -> bool { self.u || self.c || self.r || self.f || self.w || self.p }
     pub fn text(self) -> String {
         let mut s = String::new();
-        if self.u { s.push('u') } if self.c { s.push('c') } if self.r { s.push('r') } if self.f { s.push('f') } if self.w { s.push('w') }
+        if self.u { s.push('u') } if self.c { s.push('c') } if self.r { s.push('r') } if self.f { s.push('f') } if self.w { s.push('w') } if self.p { s.push('p') }
         if s.is_empty() { "-".into() } else { s }
     }
 }
 
 pub fn local_flags(tenv: &HashMap<String, CTy>, e: &E) -> Flags {
-    Flags { u: has_unsigned(tenv, e), c: char_high_local(e), r: false, f: has_float_suffix(e), w: has_wide_string(e) }
+    Flags { u: has_unsigned(tenv, e), c: char_high_local(e), r: false, f: has_float_suffix(e), w: has_wide_string(e), p: false, o: false }
 }
 
 /// flags of every definition, in header order (mirror of `nameFlags` / `defFlags`)
@@ -272,7 +272,13 @@ pub fn def_flags(tenv: &HashMap<String, CTy>, defs: &[(String, E)]) -> Vec<Flags
     let body_flags = |nf: &HashMap<String, Flags>, e: &E| -> Flags {
         let mut r = vec![];
         e.refs(&mut r);
-        r.iter().fold(local_flags(tenv, e), |acc, n| acc.or(nf.get(n).copied().unwrap_or_default()))
+        let mut f = r.iter().fold(local_flags(tenv, e), |acc, n| {
+            let g = nf.get(n).copied().unwrap_or_default();
+            acc.or(Flags { o: false, p: g.p || g.o, ..g })
+        });
+        // top-level operator binary / ?: , or an alias of an open name
+        f.o = match e { E::Bin(..) | E::Cond(..) => true, E::Ident(n) => nf.get(n).map_or(false, |g| g.o), _ => false };
+        f
     };
     let mut nf: HashMap<String, Flags> = HashMap::new();
     for n in first {
